@@ -55,7 +55,7 @@ def run(prop, tier, seed, replay=None):
     core.cargo_build()
     if replay:
         rp = json.load(open(replay))
-        if rp.get("runner") == "trace-matrix":
+        if "event" in rp["instance"]:
             tp = os.path.join(wd, "replay.ndjson")
             core.write_lines(tp, [rp["instance"]["event"]])
             # re-run the real code on the recorded matrix
